@@ -1,9 +1,8 @@
 (* Proofs/Glue_sigver.v — GLUE:
    (a) the last step of SecurityContext._check_signature: Model/Sigver.v check_signature_runs (C20; used by
        Model/CertSelect.v for C03) versus the step written out in Model/Request.v check_sig (C10, with the F16 switch).
-       Request.check_sig IS check_signature_runs on the per-certificate tool verdicts, with only_valid_cert passed
-       through before the F16 repair and FORCED TO false after it.  The only_valid_cert = true branch of
-       check_signature_runs is therefore not the library's behaviour any more (witness; no property uses it).
+       Request.check_sig IS check_signature_runs on the per-certificate tool verdicts (F16 repaired: fixd = true) resp.
+       check_signature_runs_before_fix (fixd = false), only_valid_cert passed through unchanged.
    (b) Request.verify: Model/Status.v request_verify (C06's file) versus Model/Request.v verify (C10): one function. *)
 From PV Require Import Lib.Base Model.Sigver Proofs.Sigver_lemmas.
 From PV Require Model.CertSelect Model.Xmlsec Model.Status Model.Request Proofs.CertSelect_lemmas.
@@ -42,28 +41,45 @@ Theorem request_check_sig_is_check_signature_runs pre fixd c d nm ovc :
       let i := RQ.root_id (RQ.d_tree d) in
       if pre && negb (RQ.enveloped_ok (RQ.d_tree d) nm i) then Err (s2l "SignatureError") else
       let f := Xmlsec.tool_verify (RQ.c_dupfail c) (RQ.d_tree d) nm (RQ.node_id_arg i) in
-      check_signature_runs false (map (fun k => run_of (f k)) certs)
-                           (if fixd then false else ovc) (last_tried_valid c (find f certs) certs)
+      (if fixd then check_signature_runs else check_signature_runs_before_fix)
+        false (map (fun k => run_of (f k)) certs) ovc (last_tried_valid c (find f certs) certs)
   end.
 Proof.
   unfold RQ.check_sig. destruct (RQ.request_certs c d) as [certs|e]; [|reflexivity]. cbv zeta.
   destruct (pre && negb (RQ.enveloped_ok (RQ.d_tree d) nm (RQ.root_id (RQ.d_tree d)))); [reflexivity|].
-  unfold check_signature_runs, RQ.verifying_cert, last_tried_valid. rewrite cert_loop_run_of, find_existsb.
-  destruct (find (Xmlsec.tool_verify (RQ.c_dupfail c) (RQ.d_tree d) nm (RQ.node_id_arg (RQ.root_id (RQ.d_tree d)))) certs) as [k|];
-    destruct fixd; cbn [orb]; try reflexivity.
+  destruct fixd; unfold check_signature_runs, check_signature_runs_before_fix, RQ.verifying_cert, last_tried_valid;
+    rewrite cert_loop_run_of, find_existsb;
+    destruct (find (Xmlsec.tool_verify (RQ.c_dupfail c) (RQ.d_tree d) nm (RQ.node_id_arg (RQ.root_id (RQ.d_tree d)))) certs) as [k|];
+    cbn [orb]; try reflexivity.
 Qed.
 
-(* the branch of check_signature_runs the library no longer has: nothing verifies, only_valid_cert set, certificate
-   valid => Ok in Model/Sigver.v, SignatureError in the library (and in Request.check_sig with the repair) *)
-Theorem check_signature_runs_only_valid_cert_branch_is_stale :
-  check_signature_runs false [run_of false] true true = Ok tt /\
+(* today's library (F16 repaired, pre-check in force): Request.check_sig IS Sigver.check_signature_runs after the
+   pre-check, only_valid_cert passed through unchanged (and not looked at) *)
+Corollary request_check_sig_now pre c d nm ovc :
+  RQ.check_sig pre true c d nm ovc =
+  match RQ.request_certs c d with
+  | Err e => Err e
+  | Ok certs =>
+      let i := RQ.root_id (RQ.d_tree d) in
+      if pre && negb (RQ.enveloped_ok (RQ.d_tree d) nm i) then Err (s2l "SignatureError") else
+      let f := Xmlsec.tool_verify (RQ.c_dupfail c) (RQ.d_tree d) nm (RQ.node_id_arg i) in
+      check_signature_runs false (map (fun k => run_of (f k)) certs) ovc (last_tried_valid c (find f certs) certs)
+  end.
+Proof. exact (request_check_sig_is_check_signature_runs pre true c d nm ovc). Qed.
+
+(* HISTORY: the only_valid_cert = true branch Model/Sigver.v's check_signature_runs used to have is the code BEFORE fix
+   0b54cc6b (now check_signature_runs_before_fix): nothing verifies, only_valid_cert set, certificate valid => Ok there,
+   SignatureError in the library, in check_signature_runs and in Request.check_sig with the repair *)
+Theorem check_signature_runs_before_fix_witness :
+  check_signature_runs_before_fix false [run_of false] true true = Ok tt /\
+  check_signature_runs false [run_of false] true true = Err (s2l "SignatureError") /\
   check_signature_runs false [run_of false] false true = Err (s2l "SignatureError") /\
   (forall c d nm, RQ.request_certs c d = Ok [7] -> RQ.cert_ok c 7 = true ->
       Xmlsec.tool_verify (RQ.c_dupfail c) (RQ.d_tree d) nm (RQ.node_id_arg (RQ.root_id (RQ.d_tree d))) 7 = false ->
       RQ.check_sig false true c d nm true = Err (s2l "SignatureError") /\
       RQ.check_sig false false c d nm true = Ok tt).
 Proof.
-  split; [reflexivity|]. split; [reflexivity|]. intros c d nm Hc Hok Hv.
+  split; [reflexivity|]. split; [reflexivity|]. split; [reflexivity|]. intros c d nm Hc Hok Hv.
   rewrite !request_check_sig_is_check_signature_runs, Hc. cbv zeta. cbn [andb find map]. rewrite Hv.
   unfold last_tried_valid. cbn [map last]. rewrite Hok. split; reflexivity.
 Qed.
